@@ -67,12 +67,15 @@ Definition C13_hpv_split_stmt : Prop :=
     = (if is_none (hp_status p) then 0 else 1).
 (** the cohort likelihood is the concatenation of the sub-cohort factor lists: one
     factor per patient of a scored T-stage in ext, noext, unknown, then the central
-    model's own factors *)
+    model's own factors.  (The stage lists are the keys of Python dicts, hence
+    duplicate-free: both NoDup premises; an earlier draft lacked the second one and
+    was refuted by a model with a repeated central stage.) *)
 Open Scope Qc_scope.
 Definition C13_cohort_likelihood_is_sum_stmt : Prop :=
   forall ml data v, ml_hmm_likelihood_factors ml data None = inr v ->
     let nscored (l : list bpatient) := length (filter (fun p => mem (bp_t p) (ml_t_stages ml)) l) in
     NoDup (ml_t_stages ml) ->
+    match ml_central ml with Some c => NoDup (bi_t_stages c) | None => True end ->
     length v = (nscored (d_ext data) + nscored (d_noext data)
                + match ml_unknown ml, d_unknown data with Some _, Some l => nscored l | _, _ => 0 end
                + match ml_central ml, d_central data with
